@@ -86,7 +86,16 @@ func (g *docGen) canLink() bool { return len(g.links) < g.o.MaxLinks }
 
 func (g *docGen) word() string {
 	if g.o.LongWords && g.r.Intn(15) == 0 {
-		return strings.Repeat(words[g.r.Intn(len(words))], 3+g.r.Intn(12))
+		w := strings.Repeat(words[g.r.Intn(len(words))], 3+g.r.Intn(12))
+		if g.r.Intn(3) == 0 {
+			// unbroken words with characters outside the basic plane, CJK and combining marks at every offset: one character, one cell
+			rs := []rune(w)
+			for k, m := 0, 1+g.r.Intn(6); k < m; k++ {
+				rs[g.r.Intn(len(rs))] = []rune{0x1F642, 0x1F680, 0x4E2D, 0x65E5, 0x0301, 0x00E9, 0x1F9D1}[g.r.Intn(7)]
+			}
+			w = string(rs)
+		}
+		return w
 	}
 	return words[g.r.Intn(len(words))]
 }
